@@ -19,6 +19,137 @@ DECLINED = [
 ]
 
 
+_ARCH = ("var", "$archive", -1)
+
+
+def _unify(pat, t, b):
+    if pat == _ARCH:
+        if b.get("v", t) != t:
+            return False
+        b["v"] = t
+        return True
+    if isinstance(pat, tuple) and isinstance(t, tuple) and len(pat) == len(t):
+        return all(_unify(p, x, b) for p, x in zip(pat, t))
+    return pat == t
+
+
+def contains_pattern(F, name):
+    """What `archive.Contains(name)` reads as on the current tree (the call, or the expression a one-line Contains returns),
+    with the archive left open, as the facts its truth implies."""
+    from ..prove import term_cond_facts
+    want = F.call_value(ARC + "::Contains", _ARCH, (name,))
+    fs = term_cond_facts(want, True) if want[0] != "call" else set()
+    return sorted(fs) if fs else [("true", want)]
+
+
+def contains_held(F, site, name):
+    """The archives `A` for which the facts at a site say A.Contains(name) held."""
+    pats = contains_pattern(F, name)
+    found = set()
+
+    def forms(f):
+        yield f
+        if f[0] in ("==", "!=") and len(f) == 3:
+            yield (f[0], f[2], f[1])
+    for f in site:
+        for g in forms(f):
+            b = {}
+            if _unify(pats[0], g, b) and "v" in b:
+                a = b["v"]
+                if all(any(_unify(p, h, {"v": a}) for f2 in site for h in forms(f2)) for p in pats[1:]):
+                    found.add(a)
+    return found
+
+
+def contains_term_archive(F, t, name):
+    """t is `A.Contains(name)` (as read on the current tree) for some archive A: A, else None."""
+    want = F.call_value(ARC + "::Contains", _ARCH, (name,))
+    b = {}
+    return b.get("v") if _unify(want, t, b) else None
+
+
+def locating_helper(F, S, h):
+    """h is a manager helper `bool Find(name, archiveIndexOut, memberIndexOut)`: wherever it returns true the out-parameters hold
+    (a, j) with PathsAreEqual(ArchiveFiles[a]->GetName(j), name) known to hold, and it returns false only after its loops over
+    all archives and all members ran to their end. Returns {"name": i, "archive": i, "member": i} (parameter positions) or None."""
+    if not h.cfg or h.cls != RM or (h.d.get("ret_ct") or "") != "bool":
+        return None
+    rets = returns(h)
+    if not rets or any(h.term(r["value"]) not in (("const", 0), ("const", 1)) for r in rets):
+        return None
+    pv = [("var", p["n"], p["d"]) for p in h.params]
+    outs = [i for i, p in enumerate(h.params) if p.get("ref") and not p.get("const_ref") and p.get("iw")]
+    names = [i for i, p in enumerate(h.params) if "basic_string" in (p.get("ct") or "")]
+    if len(outs) != 2 or len(names) != 1:
+        return None
+    eng = Engine(F, S)
+    eng.analyze(h, frozenset())
+    roles = None
+    loops = [nd for nd in h.nodes if nd["k"] in ("ForStmt", "WhileStmt", "DoStmt", "CXXForRangeStmt")]
+    in_loop = set()
+    for l in loops:
+        in_loop |= set(h.subtree(l["id"]))
+    for r in rets:
+        site = final_site_facts(eng, h, r["id"]) or set()
+        if h.term(r["value"]) == ("const", 0):
+            if r["id"] in in_loop:
+                return None         # gives up before every archive was tried
+            continue
+        eq = {}
+        for f in site:
+            if f[0] == "==":
+                for (x, y) in ((f[1], f[2]), (f[2], f[1])):
+                    if x in pv and y[0] == "var":
+                        eq[y] = x
+        found = None
+        for f in site:
+            if f[0] == "true" and f[1][0] == "call" and f[1][1] == XF + "PathsAreEqual" and len(f[1][3]) == 2:
+                for (a, b) in (f[1][3], f[1][3][::-1]):
+                    a2, b2 = substitute(a, eq), substitute(b, eq)
+                    if b2 == pv[names[0]] and a2[0] == "call" and a2[1] == ARC + "::GetName" and len(a2[3]) == 1 and a2[3][0] in pv \
+                            and a2[2][0] == "un" and a2[2][1] == "*" and a2[2][2][0] == "idx" and a2[2][2][1] == ("mem", ("this",), "ArchiveFiles") \
+                            and a2[2][2][2] in pv:
+                        found = {"name": names[0], "archive": pv.index(a2[2][2][2]), "member": pv.index(a2[3][0])}
+        if found is None or (roles is not None and roles != found) or {found["archive"], found["member"]} != set(outs):
+            return None
+        roles = found
+    if roles is None:
+        return None
+    # the scans are whole: counting loops from 0 to the container's size / the archive's count, left only through the match
+    for l in loops:
+        body = set(h.subtree(l["body"])) if "body" in l else set()
+        if any(h.n(x)["k"] in ("BreakStmt", "GotoStmt") for x in body):
+            return None
+        if l["k"] == "CXXForRangeStmt":
+            continue
+        if l["k"] != "ForStmt" or "init" not in l or "cond" not in l:
+            return None
+        ds = h.n(l["init"]).get("decls", [])
+        c = h.term(l["cond"])
+        if len(ds) != 1 or "init" not in ds[0] or h.term(ds[0]["init"]) != ("const", 0) or not (c[0] == "op" and c[1] == "<" and c[2] == ("var", ds[0]["n"], ds[0]["d"])):
+            return None
+        bound_ok = c[3] == ("size", ("mem", ("this",), "ArchiveFiles")) or \
+            (c[3][0] in ("call", "mem") and (c[3][-1] == "m_Count" or (c[3][0] == "call" and c[3][1] == ARC + "::GetCount")))
+        if not bound_ok:
+            return None
+    return roles
+
+
+def located_by_helper(F, S, fn, site, name):
+    """Pairs (archive term, member index term) that the facts at a site say a locating helper found for `name`."""
+    out = []
+    for f in site:
+        if f[0] == "true" and f[1][0] == "call" and f[1][2] in (("this",), None):
+            for h in F.fns(f[1][1]):
+                if len(h.params) != len(f[1][3]):
+                    continue
+                roles = locating_helper(F, S, h)
+                if roles and f[1][3][roles["name"]] == name:
+                    a, j = f[1][3][roles["archive"]], f[1][3][roles["member"]]
+                    out.append((("un", "*", ("idx", ("mem", ("this",), "ArchiveFiles"), a)), j))
+    return out
+
+
 def lookup_loops(F):
     """Contains and GetIndex iterate the same range with the same predicate."""
     out = []
@@ -144,6 +275,61 @@ def lookup_loops(F):
                     slot = [i for i, p in enumerate(helper.params) if ("var", p["n"], p["d"]) == l and p.get("ref") and not p.get("const_ref")]
         true_ret = len(r2) == 1 and helper.term(r2[0]["value"]) == ("const", 1)
         other_rets = [r for r in returns(helper) if r not in r2]
+        co = F.fn(ARC + "::Contains", nparams=1)
+        crets = returns(co)
+        cinst = ARC + "::Contains#returns-verdict"
+        mval = helper.term(r2[0]["value"]) if len(r2) == 1 else None
+        if mval == v2 or (mval is not None and mval[0] == "ctor" and mval[1].startswith("std::optional<") and mval[2] == (v2,)):
+            # index form: the helper returns the loop index at the match and, everywhere else, a value no index can equal
+            # (the loop's own bound, or an empty optional); GetIndex returns the helper's value where it is known not to be
+            # that value, Contains returns "is not that value"
+            opt = mval != v2
+            lc = helper.term(lp["cond"]) if "cond" in lp else None
+            bound = lc[3] if lc and lc[0] == "op" and lc[1] == "<" and lc[2] == v2 else None
+            if opt:
+                sent_ok = bool(other_rets) and all(helper.term(r["value"]) in (("ctor", mval[1], (("global", "std::nullopt"),)), ("ctor", mval[1], ()))
+                                                   for r in other_rets)
+            else:
+                sent_ok = bool(other_rets) and bound is not None and all(helper.term(r["value"]) == bound for r in other_rets)
+            good = sent_ok
+            gcall = gi.term(call["id"])
+            ccall = co.term(shared["Contains"][0][0]["id"])
+
+            def found_forms(c):
+                if opt:
+                    return [("true", ("call", mval[1] + "::has_value", c, ())), ("true", c), ("true", ("call", mval[1] + "::operator bool", c, ()))]
+                return [("!=", c, bound), ("!=", bound, c)]
+            grets = returns(gi)
+            if good:
+                good = len(grets) == 1
+            if good:
+                rv = gi.xterm(grets[0]["value"])
+                if opt:
+                    good = rv in (("call", mval[1] + "::value", gcall, ()), ("un", "*", gcall), ("call", mval[1] + "::operator*", gcall, ()))
+                else:
+                    good = rv == gcall
+            if good:
+                eng_g = Engine(F, Summaries(F))
+                eng_g.analyze(gi, frozenset())
+                site_g = final_site_facts(eng_g, gi, grets[0]["id"]) or set()
+                site_x = set(site_g) | {tuple(gi.through_locals(x) if isinstance(x, tuple) else x for x in f) for f in site_g}
+                good = any(f in site_x for f in found_forms(gcall))
+            if good:
+                out.append(ok("R-SIB", inst, gi.loc(call["id"]), gi.qn, "the index returned is the one whose name matched",
+                              "the helper's index, where it is known not to be the not-found value"))
+            else:
+                out.append(bad("R-SIB", inst, gi.loc(gi.body), gi.qn, "the index returned is the one whose name matched", "return shape not recognised"))
+            cgood = sent_ok and len(crets) == 1
+            if cgood:
+                from ..prove import term_cond_facts
+                cv = co.xterm(crets[0]["value"])
+                cf = term_cond_facts(cv, True) or {("true", cv)}
+                cgood = len(cf) == 1 and any(f in cf for f in found_forms(ccall))
+            if cgood:
+                out.append(ok("R-SIB", cinst, co.loc(crets[0]["id"]), co.qn, "membership is the shared scan's verdict", "helper(...) is not the not-found value"))
+            else:
+                out.append(bad("R-SIB", cinst, co.loc(co.body), co.qn, "membership is the shared scan's verdict", "return shape not recognised"))
+            return out
         false_else = all(helper.term(r["value"]) == ("const", 0) for r in other_rets) and bool(other_rets)
         good = bool(slot) and true_ret and false_else
         if good:
@@ -160,9 +346,7 @@ def lookup_loops(F):
             out.append(ok("R-SIB", inst, gi.loc(call["id"]), gi.qn, "the index returned is the one whose name matched", "the helper's result slot, on its true verdict"))
         else:
             out.append(bad("R-SIB", inst, gi.loc(gi.body), gi.qn, "the index returned is the one whose name matched", "return shape not recognised"))
-        co = F.fn(ARC + "::Contains", nparams=1)
-        crets = returns(co)
-        inst = ARC + "::Contains#returns-verdict"
+        inst = cinst
         if len(crets) == 1 and co.strip(crets[0]["value"]) == shared["Contains"][0][0]["id"]:
             out.append(ok("R-SIB", inst, co.loc(crets[0]["id"]), co.qn, "membership is the shared scan's verdict", "return helper(...)"))
         else:
@@ -174,6 +358,37 @@ def lookup_loops(F):
     return out
 
 
+class _MemberSummaries(Summaries):
+    """Write sets in which an operation run on the object a (smart) pointer member points at - `ArchiveFiles[i]->OpenStream(j)` -
+    is a write of that object, not of the pointer member: the archives are objects of their own, whichever expression names
+    them (a loop variable bound to the element, or the element itself)."""
+
+    def _pointee_of_member(self, fn, t):
+        if not (t and t[0] == "un" and t[1] == "*"):
+            return False
+        x = t[2]
+        while True:
+            if x[0] == "idx":
+                x = x[1]
+            elif x[0] == "call" and x[2] is not None and x[1].split("::")[-1] in ("at", "front", "back", "operator[]", "get"):
+                x = x[2]
+            else:
+                break
+        if x[0] == "mem" and x[1] == ("this",) and fn.cls in self.F.records:
+            for fld in self.F.records[fn.cls]["fields"]:
+                if fld["name"] == x[2]:
+                    ct = fld.get("ct") or ""
+                    return "unique_ptr<" in ct or "shared_ptr<" in ct or fld.get("is_pointer", False)
+        return False
+
+    def call_writes(self, fn, nd, root_item):
+        obj_t = fn.term(nd["obj"]) if nd["k"] == "CXXMemberCallExpr" and "obj" in nd else None
+        if obj_t is not None and self._pointee_of_member(fn, obj_t):
+            inner = root_item
+            root_item = lambda t, elem=False, _depth=0: None if t == obj_t else inner(t, elem)
+        return Summaries.call_writes(self, fn, nd, root_item)
+
+
 def lookups_are_stateless(F, S):
     """R-WRITESET: what a ResourceManager answers depends on the query and on the directory / archives only: apart from
     the constructor no operation writes a data member of the manager (no caches whose content depends on earlier queries)."""
@@ -181,6 +396,7 @@ def lookups_are_stateless(F, S):
     n = 0
     from ..invariants import ctor_only_functions
     building = ctor_only_functions(F, RM)        # private helpers only the constructor runs are part of construction
+    S = _MemberSummaries(F)
     for fn in sorted(F.functions.values(), key=lambda f: f.key):
         if fn.cls != RM or not fn.cfg or fn.d.get("implicit") or fn.d.get("ctor") or fn.name.startswith("~") or fn.key in building:
             continue
@@ -245,15 +461,19 @@ def resource_stream(F, S):
             req = "a loose file is returned only for a relative name, when Append(resourceRootDir, name) exists, before archive access is even consulted"
         elif "OpenStream" in s:
             kind = "archive"
-            cont = [f for f in site if f[0] == "true" and f[1][0] == "call" and f[1][1] == ARC + "::Contains" and f[1][3] == (fname,)]
             # (the same archive may be named through the loop variable or through what the loop variable stands for)
-            archs = {fn.through_locals(f[1][2]) for f in cont}
+            archs = {fn.through_locals(a) for a in contains_held(F, site, fname)}
             good = rooted and exists_t and exists_t[0][0] == "false" and acc_f and acc_f[0][0] == "true" and len(archs) == 1
             if good:
                 arch = list(archs)[0]
                 t2 = fn.through_locals(t)
                 good = t2[0] == "call" and t2[1] == ARC + "::OpenStream" and t2[2] == arch and \
                     t2[3] == (("call", ARC + "::GetIndex", arch, (fname,)),)
+            elif rooted and exists_t and exists_t[0][0] == "false" and acc_f and acc_f[0][0] == "true" and not archs:
+                # the archive and the member were located by one search helper that reports both
+                t0 = fn.term(r["value"])
+                t0 = t0[2][0] if t0[0] == "ctor" and len(t0[2]) == 1 else t0
+                good = any(t0 == ("call", ARC + "::OpenStream", a, (j,)) for (a, j) in located_by_helper(F, S, fn, site, fname))
             req = "an archive member is returned only when no loose file exists, archive access is enabled, and it is OpenStream(GetIndex(name)) of the archive whose Contains(name) held"
         else:
             if acc_f and acc_f[0][0] == "false":
@@ -423,7 +643,7 @@ def containing_archive(F, S):
             hit += 1
             site = final_site_facts(eng, fn, r["id"]) or set()
             arch = t[2] if t[0] == "call" else t[1]
-            good = any(f[0] == "true" and f[1] == ("call", ARC + "::Contains", arch, (P(fn, 0),)) for f in site)
+            good = arch in contains_held(F, site, P(fn, 0)) or any(arch == a for (a, _j) in located_by_helper(F, S, fn, site, P(fn, 0)))
             if not good:
                 # algorithm form: the archive is *it for it = find_if(archives, a -> a->Contains(name)), returned only when it != end
                 from ..through import searches
@@ -433,7 +653,8 @@ def containing_archive(F, S):
                     if x["kind"] == "algo:find_if" and a2 == ("un", "*", ("un", "*", fn.term(x["node"]["id"]))) or \
                             (x["kind"] == "algo:find_if" and mentions(a2, fn.term(x["node"]["id"]))):
                         pr = x["pred"]
-                        pred_ok = pr[0] == "call" and pr[1] == ARC + "::Contains" and pr[3] == (P(fn, 0),) and mentions(pr[2], x["elem"])
+                        pa = contains_term_archive(F, pr, P(fn, 0))
+                        pred_ok = pa is not None and mentions(pa, x["elem"])
                         it = [v for v, t0 in alias_defs(fn).items() if t0 == fn.term(x["node"]["id"])]
                         endt = ("call", None)
                         guarded = any(f[0] == "!=" and it and it[0] in (f[1], f[2]) and "end" in repr(f) for f in site)
